@@ -6,7 +6,7 @@ import vlib
 LEVEL = "proof"
 PROPS = "Remed/Props_C18.v"
 COQ_FILES = ["Lib/SortSearch.v", "Remed/Vulns.v", "Remed/VulnsProofs.v", "Remed/Props_C18.v"]
-THEOREMS = ["is_affected_eq_spec", "range_decision_on_any_ordering", "other_package_never_matches",
+THEOREMS = ["is_affected_eq_spec", "range_decision_on_any_ordering", "range_decision_eq_declarative", "other_package_never_matches",
             "unknown_ecosystem_never_matches", "listed_version_matches"]
 
 META = {
